@@ -46,20 +46,20 @@ type e2eAction struct {
 type e2eHook func(dir int, idx int, b []byte) e2eAction
 
 type e2eCfg struct {
-	upload    bool
-	binary    bool
-	escape    bool
-	directory bool
-	overwrite bool
-	compress  string // "", "yes", "no", "auto"
-	bufsize   string // e.g. "1k", "10M"; "" = default
-	timeout   int    // server -t; 0 = default 20
-	proto     int    // -1 leave the handshake alone; 0 remove the protocol field (v1); 2, 3, 4, 9 force
-	quiet     bool
-	relays    int  // number of trzsz relays (jump hosts) between the client and the server
-	tunnel    bool // give the client (and the relays) a tunnel connector (TCP on 127.0.0.1)
+	upload     bool
+	binary     bool
+	escape     bool
+	directory  bool
+	overwrite  bool
+	compress   string // "", "yes", "no", "auto"
+	bufsize    string // e.g. "1k", "10M"; "" = default
+	timeout    int    // server -t; 0 = default 20
+	proto      int    // -1 leave the handshake alone; 0 remove the protocol field (v1); 2, 3, 4, 9 force
+	quiet      bool
+	relays     int  // number of trzsz relays (jump hosts) between the client and the server
+	tunnel     bool // give the client (and the relays) a tunnel connector (TCP on 127.0.0.1)
 	hookTunnel bool // the client's tunnel connection goes through the hook as well (same direction counters)
-	hook      e2eHook
+	hook       e2eHook
 	// events triggered by the harness while the transfer runs
 	onStart func(r *e2eRun)
 	// maximum wall time before the harness gives up (hang detection)
@@ -73,6 +73,9 @@ type e2eCfg struct {
 	// C17 (relay): called, synchronously, with every chunk the relay chain hands to the client before the
 	// client sees it (blocking in it holds the chunk back); nil = none
 	relayTap func(b []byte)
+	// C17 (relay): handed the in-band input of the relay next to the client (what the client's terminal side writes
+	// into it), so that the harness can type bytes there itself; nil = none
+	onRelayIn func(w io.Writer)
 }
 
 // e2eTapReader lets the harness see (and hold back) what the client is about to read
@@ -330,6 +333,9 @@ func runTransfer(cfg e2eCfg, src []string, dest string) e2eResult {
 	}
 	if cfg.relayTap != nil {
 		upOut = &e2eTapReader{upOut, cfg.relayTap}
+	}
+	if cfg.onRelayIn != nil && cfg.relays > 0 {
+		cfg.onRelayIn(upIn)
 	}
 	filter := trzsz.NewTrzszFilter(cliInR, termWriter{r}, upIn, upOut, trzsz.TrzszOptions{TerminalColumns: 100})
 	if cfg.tunnel {
